@@ -461,6 +461,32 @@ def r10_enumerate(text, notes):
     return text
 
 
+def r6_windows_for(text, notes):
+    """R6w: `for P in E.windows(N) {B}` -> index loop; the window is the slice `&E[w..w+N]` (std semantics of windows)"""
+    changed = True
+    n = 0
+    while changed:
+        changed = False
+        mask = mask_text(text)
+        for off in kw_iter(mask, 'for'):
+            brace = _match_body_open(mask, off - 2)
+            if brace < 0:
+                continue
+            m = re.match(r'for\s+([A-Za-z_][A-Za-z0-9_]*)\s+in\s+(.+?)\.\s*windows\s*\(\s*(\d+)\s*\)\s*$', mask[off:brace], re.S)
+            if not m:
+                continue
+            pat, expr, k = m.group(1), text[off + m.start(2):off + m.end(2)].strip(), m.group(3)
+            w = 'w__%d' % n
+            n += 1
+            head = 'let mut %s: usize = 0;\n        while %s.len() - %s >= %s ' % (w, expr, w, k)
+            body0 = '{ let %s = &%s[%s..%s + %s]; %s += 1;' % (pat, expr, w, w, k, w)
+            text = text[:off] + head + body0 + text[brace + 1:]
+            notes.add('R6', '`for %s in %s.windows(%s)` lowered to an index loop (counter %s)' % (pat, expr, k, w))
+            changed = True
+            break
+    return text
+
+
 def eta_expand_paths(text, notes):
     """R6 (part): `.map(ToOwned::to_owned)` -> `.map(|x| x.to_owned())`"""
     new = re.sub(r'\.map\(\s*ToOwned::to_owned\s*\)', '.map(|x__| x__.to_owned())', text)
@@ -487,6 +513,8 @@ def apply_rules(text, rules, notes, extra_log_macros=()):
             text = r8b_pub_fields(text, notes)
         elif r == 'R10':
             text = r10_enumerate(text, notes)
+        elif r == 'R6w':
+            text = r6_windows_for(text, notes)
         elif r == 'R6e':
             text = eta_expand_paths(text, notes)
         else:
@@ -494,4 +522,4 @@ def apply_rules(text, rules, notes, extra_log_macros=()):
     return text
 
 
-DEFAULT_RULES = ['R1', 'R2', 'R7', 'R8', 'R3', 'R4', 'R10', 'R6e']
+DEFAULT_RULES = ['R1', 'R2', 'R7', 'R8', 'R3', 'R4', 'R10', 'R6w', 'R6e']
